@@ -104,6 +104,11 @@ def _ops():
     add("S@ad", lambda e: e["S"] @ e["A"], lambda a, b, v, S: S @ a)
     add("Sreal@ad", lambda e: e["Sreal"] @ e["A"], lambda a, b, v, S: _SREAL @ a)
     add("ad[0]", lambda e: e["A"][0], lambda a, b, v, S: a[np.array([0])])
+    add("ad[-1]", lambda e: e["A"][-1], lambda a, b, v, S: a[np.array([-1])])
+    add("ad[np.int64(-1)]", lambda e: e["A"][np.int64(-1)], lambda a, b, v, S: a[np.array([-1])])
+    add("ad[-2]", lambda e: e["A"][-2], lambda a, b, v, S: a[np.array([-2])])
+    add("ad[-2:]", lambda e: e["A"][-2:], lambda a, b, v, S: a[-2:])
+    add("ad[[-1,0]]", lambda e: e["A"][np.array([-1, 0])], lambda a, b, v, S: a[np.array([-1, 0])])
     add("ad[1:2]", lambda e: e["A"][1:2], lambda a, b, v, S: a[1:2])
     add("ad[::-1]", lambda e: e["A"][::-1], lambda a, b, v, S: a[::-1])
     add("ad[[1,0,1]]", lambda e: e["A"][np.array([1, 0, 1])], lambda a, b, v, S: a[np.array([1, 0, 1])])
@@ -225,7 +230,7 @@ def _mk_env(ctx, n, m):
 
 def step_harness(ctx, name, n, m):
     apply, ref, deps, domain, note = _ops()[name]
-    if (name == "f.l2_norm(2)" and n != 2) or (name in ("ad[[1,0,1]]",) and n < 2):
+    if (name == "f.l2_norm(2)" and n != 2) or (name in ("ad[[1,0,1]]", "ad[-2]", "ad[-2:]", "ad[[-1,0]]") and n < 2):
         ctx.reach("end")            # operation not defined for this operand size in the harness
         return None
     e = _mk_env(ctx, n, m)
